@@ -70,7 +70,7 @@ def gen_ruleset(rng, profile, name=""):
     g.ndefs = ndefs
     _patch_ci(g, cisafe)
     scs = [("S%d" % (i + 1), rng.random() < 0.5) for i in range(nsc)]
-    nrules = rng.randint(2, 5)
+    nrules = rng.randint(*o.get("nrules", (2, 5)))
     rules = []
     for k in range(nrules):
         depth = rng.choice([1, 2, 2, 3])
